@@ -586,6 +586,13 @@ func fieldStr(fs []zap.Field, key string) string {
 
 var runMu sync.Mutex // goroutine accounting needs exclusive runs
 
+// After maxHangs cases in which Engine.Run or Engine.Wait did not return, the remaining cases are not run: every
+// hang costs its full timeout (and leaves goroutines behind), the violation is already established, and a tree that
+// hangs on most plans would otherwise take hours.
+const maxHangs = 4
+
+var hangs atomic.Int64
+
 func runCase(input string) string {
 	pl, err := parsePlan(input)
 	if err != nil {
@@ -593,6 +600,9 @@ func runCase(input string) string {
 	}
 	runMu.Lock()
 	defer runMu.Unlock()
+	if hangs.Load() >= maxHangs {
+		return "SKIPPED-AFTER-HANGS"
+	}
 
 	baseline := settleGoroutines(-1, 200*time.Millisecond)
 
@@ -650,6 +660,9 @@ func runCase(input string) string {
 	case <-waited:
 	case <-time.After(waitTimeout):
 		waitOK = false
+	}
+	if hungRun || !waitOK {
+		hangs.Add(1)
 	}
 	extra := 0
 	if !waitOK {
